@@ -1,11 +1,15 @@
-// C12 E-SHIM harness: concurrent_unordered_{set,multiset,map,multimap} under the controlled scheduler.
-// usage: uo <rand seed nruns | dfs bound maxruns | replay t,t,t,... | guide segs | sweep H maxruns>   (scenario on stdin, see c12_common.h)
+// C12 E-SHIM harness: concurrent_unordered_{set,multiset,map,multimap} under the controlled scheduler, with user functors
+// that can throw at their k-th call inside one operation (hasher, key_equal, element constructor, allocator) and an allocator
+// that records deallocations.
+// usage: uo <rand seed nruns | dfs bound maxruns | replay t,t,t,... | guide segs | sweep H maxruns |
+//            frand seed nruns cap printcap | fsweep H maxruns cap printcap>   (scenario on stdin, see c12_common.h; fault modes as in sl.cpp)
 //   kind uset|umset|umap|ummap / bc <initial bucket count> / mlf <num> <den> | mlfb <float bits> / hash k h k h ... /
 //   pre ins:k rsv:n reh:n mlf:bits ... / prog ins:k find:k has:k cnt:k trav emp:k rsv:n reh:n mlf:bits   (one line per thread)
 //   guide: `t*n` n picks of t, `t!` t to completion, `t@m` t until m ops are done;  sweep H: for j = 1, 2, ... hold thread H after
 //   j picks while every ordered selection of the other threads runs to completion, then H (traces printed when H had a failed CAS)
 // Per run prints: run i / node id ok uk kind / e tid kind var a b ok / o tid b|e idx / res tid idx op key values /
 //                 fin <final traversal keys> / bcfin n / mon verdict / sched tids / end
+//                 x tid functor k (the call that threw) / calls tid op functor=n ... / fault tid op functor k fired / dead <node ids>
 // Built with -fno-access-control and the E-SHIM prelude.  Property monitors are independent of the Lean model.
 #include "c12_common.h"
 #include <oneapi/tbb/concurrent_unordered_set.h>
@@ -19,24 +23,27 @@ static std::vector<long> g_ops_done;
 static int g_focus = -1;
 
 struct Hash {
-    size_t operator()(uint64_t k) const { auto it = g_sc.hash.find(k); return it == g_sc.hash.end() ? (size_t)k : (size_t)it->second; }
+    size_t operator()(const Elem& e) const { functor_call(F_HASH); return of(e.v); }
+    static size_t of(uint64_t k) { auto it = g_sc.hash.find(k); return it == g_sc.hash.end() ? (size_t)k : (size_t)it->second; }
+};
+struct Eq {
+    bool operator()(const Elem& a, const Elem& b) const { functor_call(F_EQ); return a.v == b.v; }
 };
 namespace c12 {
 template <> struct node_tag<tbb::detail::d2::list_node<size_t>> { static constexpr int value = 1; };
 template <class V> struct node_tag<tbb::detail::d2::value_node<V, size_t>> { static constexpr int value = 1; };
 }
-using Eq = std::equal_to<uint64_t>;
-using PairT = std::pair<const uint64_t, uint64_t>;
-using USet = tbb::concurrent_unordered_set<uint64_t, Hash, Eq, BumpAlloc<uint64_t>>;
-using UMSet = tbb::concurrent_unordered_multiset<uint64_t, Hash, Eq, BumpAlloc<uint64_t>>;
-using UMap = tbb::concurrent_unordered_map<uint64_t, uint64_t, Hash, Eq, BumpAlloc<PairT>>;
-using UMMap = tbb::concurrent_unordered_multimap<uint64_t, uint64_t, Hash, Eq, BumpAlloc<PairT>>;
+using PairT = std::pair<const Elem, uint64_t>;
+using USet = tbb::concurrent_unordered_set<Elem, Hash, Eq, BumpAlloc<Elem>>;
+using UMSet = tbb::concurrent_unordered_multiset<Elem, Hash, Eq, BumpAlloc<Elem>>;
+using UMap = tbb::concurrent_unordered_map<Elem, uint64_t, Hash, Eq, BumpAlloc<PairT>>;
+using UMMap = tbb::concurrent_unordered_multimap<Elem, uint64_t, Hash, Eq, BumpAlloc<PairT>>;
 
 template <class C> struct Tr;
-template <> struct Tr<USet> { static constexpr bool multi = false; static uint64_t val(uint64_t k, uint64_t) { return k; } static uint64_t key(uint64_t v) { return v; } };
-template <> struct Tr<UMSet> { static constexpr bool multi = true; static uint64_t val(uint64_t k, uint64_t) { return k; } static uint64_t key(uint64_t v) { return v; } };
-template <> struct Tr<UMap> { static constexpr bool multi = false; static PairT val(uint64_t k, uint64_t tag) { return PairT(k, tag); } static uint64_t key(const PairT& v) { return v.first; } };
-template <> struct Tr<UMMap> { static constexpr bool multi = true; static PairT val(uint64_t k, uint64_t tag) { return PairT(k, tag); } static uint64_t key(const PairT& v) { return v.first; } };
+template <> struct Tr<USet> { static constexpr bool multi = false; static Elem val(uint64_t k, uint64_t) { return Elem(k); } static uint64_t key(const Elem& v) { return v.v; } };
+template <> struct Tr<UMSet> { static constexpr bool multi = true; static Elem val(uint64_t k, uint64_t) { return Elem(k); } static uint64_t key(const Elem& v) { return v.v; } };
+template <> struct Tr<UMap> { static constexpr bool multi = false; static PairT val(uint64_t k, uint64_t tag) { return PairT(Elem(k), tag); } static uint64_t key(const PairT& v) { return v.first.v; } };
+template <> struct Tr<UMMap> { static constexpr bool multi = true; static PairT val(uint64_t k, uint64_t tag) { return PairT(Elem(k), tag); } static uint64_t key(const PairT& v) { return v.first.v; } };
 
 // split-order keys recomputed independently of the header under test (for the monitors)
 static uint64_t mon_rev(uint64_t x) { uint64_t r = 0; for (int i = 0; i < 64; ++i) if (x >> i & 1) r |= uint64_t(1) << (63 - i); return r; }
@@ -44,14 +51,23 @@ static uint64_t mon_dummy(uint64_t b) { return mon_rev(b) & ~uint64_t(1); }
 static uint64_t mon_regular(uint64_t h) { return mon_rev(h) | 1; }
 
 struct OpRes { std::string name; uint64_t key; std::vector<uint64_t> vals; };
+static bool g_last_fired = false;
+static long g_fired_by[F_N] = {0, 0, 0, 0, 0};
+static long g_postlink = 0, g_leaks = 0;      // fault runs in which an insert threw after / before its node was linked (node leaked)
 
 template <class C>
 static bool run_once(verif::Schedule& sch, int run_idx, int print) {
     using T = Tr<C>;
     using node_ptr = typename C::node_ptr;
     using value_node_ptr = typename C::value_node_ptr;
+    using value_node_type = typename std::remove_pointer<value_node_ptr>::type;
     arena().reset();
-    C* cp = new (arena().alloc(sizeof(C), 64, 2)) C((size_t)g_sc.bc);     // never destroyed: a corrupted list must not hang us
+    FaultCtl& fc = fctl();
+    fc.fired = false;
+    fc.calls.assign(g_sc.progs.size(), {});
+    for (size_t t = 0; t < g_sc.progs.size(); ++t) fc.calls[t].assign(g_sc.progs[t].size(), CallCount());
+    C* cp = new (arena().alloc(sizeof(C), 64, 2)) C((size_t)g_sc.bc);     // destroyed explicitly at the end of a healthy run
+    size_t arena_mark = arena().recs.size();
     C& c = *cp;
     if (g_sc.has_mlf_bits) { float f; memcpy(&f, &g_sc.mlf_bits, 4); c.max_load_factor(f); }
     else c.max_load_factor(float(g_sc.mlf_num) / float(g_sc.mlf_den));
@@ -81,14 +97,42 @@ static bool run_once(verif::Schedule& sch, int run_idx, int print) {
             fflush(stdout); _exit(3);
         }
     };
-    std::map<uint64_t, long> pre_cnt, started, completed, wins;
-    long ins_started = 0, ins_completed = 0; std::vector<std::string> observations;
+    std::map<uint64_t, long> pre_cnt, started, completed, wins, thrown_linked;
+    long ins_started = 0, ins_completed = 0, n_thrown_linked = 0; std::vector<std::string> observations;
     std::set<const void*> elems_done;           // elements whose successful insert has returned
     std::set<const void*> elems_all;            // elements returned by any successful insert
+    std::set<size_t> leak_ok;                   // allocation records of value nodes whose insert threw before the node was linked
+    // white box, no scheduling points: is the list node `np` reachable from the head, or does a bucket slot point at it?
+    auto reachable = [&](const void* np) -> const char* {
+        size_t n = 0;
+        for (node_ptr x = c.my_head.my_next.a.load(); x && n < walk_bound; x = x->my_next.a.load(), ++n) if ((const void*)x == np) return "reachable from the head";
+        auto* tab0 = c.my_segments.my_segment_table.a.load();
+        for (size_t sg = 0; sg < 40; ++sg) {
+            auto* segp = tab0[sg].a.load();
+            if (!segp || (uintptr_t)segp < 4096) continue;
+            size_t base = c.my_segments.segment_base(sg), cnt = c.my_segments.segment_size(sg);
+            for (size_t b = base; b < base + cnt; ++b) if ((const void*)segp[b].a.load() == np) return "the entry of a bucket";
+        }
+        return nullptr;
+    };
+    // an allocation that is deallocated must not be reachable any more (checked at the moment of the deallocation)
+    arena().on_dealloc = [&](size_t ri) {
+        if (ri < arena_mark || arena().recs[ri].tag != 1) return;
+        const char* how = reachable(arena().base + arena().recs[ri].off);
+        if (how) fail(std::string("node deallocated while it is still ") + how + ": a dead node stays linked");
+    };
+    // the value node an insert operation allocated, or -1
+    auto own_node_rec = [&](size_t t, size_t i) -> long {
+        for (size_t ri = arena_mark; ri < arena().recs.size(); ++ri) {
+            auto& rec = arena().recs[ri];
+            if (rec.tid == (int)t && rec.op == (int)i && rec.tag == 1 && rec.bytes == sizeof(value_node_type)) return (long)ri;
+        }
+        return -1;
+    };
     guarded([&] {
         for (auto& o : g_sc.pre) {
             if (is_size_op(o)) { size_op(o); continue; }
-            if (o.name == "find" || o.name == "has") { (void)c.contains(o.key); continue; }      // initialises the key's bucket
+            if (o.name == "find" || o.name == "has") { (void)c.contains(Elem(o.key)); continue; }      // initialises the key's bucket
             auto r = c.insert(T::val(o.key, 900000 + pre_cnt.size()));
             if (r.second) { pre_cnt[o.key]++; elems_done.insert(&*r.first); elems_all.insert(&*r.first); }
             else if (T::multi) fail("pre-insert into a multi container failed");
@@ -103,6 +147,7 @@ static bool run_once(verif::Schedule& sch, int run_idx, int print) {
         for (auto it = c.begin(); it != c.end(); ++it) {
             if (++n > walk_bound) { fail(std::string(who) + ": traversal does not terminate (cycle in the list)"); break; }
             node_ptr np = it.get_node_ptr();
+            if (arena().is_dead(np)) fail(std::string(who) + ": iteration walks through a deallocated node (key bytes read as " + std::to_string(T::key(*it)) + ")");
             if (np->order_key() < last_ok) fail(std::string(who) + ": traversal not in split order");
             last_ok = np->order_key();
             keys.push_back(T::key(*it)); addrs.push_back(&*it);
@@ -126,35 +171,47 @@ static bool run_once(verif::Schedule& sch, int run_idx, int print) {
             const OpSpec& o = g_sc.progs[t][i];
             OpRes r{o.name, o.key, {}};
             verif::note("b", i);
-            if (o.name == "ins" || o.name == "emp") {
+            const Elem ek(o.key);
+            bool is_ins = o.name == "ins" || o.name == "emp";
+            try {
+            if (is_ins) {
                 started[o.key]++; ins_started++;
                 bool ok; const void* addr;
-                if (o.name == "ins") { auto pr = c.insert(T::val(o.key, t * 1000 + i)); ok = pr.second; addr = &*pr.first; if (T::key(*pr.first) != o.key) fail("insert returned an iterator to a different key"); }
-                else { auto pr = c.emplace(T::val(o.key, t * 1000 + i)); ok = pr.second; addr = &*pr.first; if (T::key(*pr.first) != o.key) fail("emplace returned an iterator to a different key"); }
+                auto v = T::val(o.key, t * 1000 + i);
+                if (o.name == "ins") { OpScope sc(t, i); auto pr = c.insert(std::move(v)); t_active = false; ok = pr.second; addr = &*pr.first; if (T::key(*pr.first) != o.key) fail("insert returned an iterator to a different key"); }
+                else { OpScope sc(t, i); auto pr = c.emplace(std::move(v)); t_active = false; ok = pr.second; addr = &*pr.first; if (T::key(*pr.first) != o.key) fail("emplace returned an iterator to a different key"); }
                 completed[o.key]++; ins_completed++;
                 if (ok) { wins[o.key]++; if (!elems_all.insert(addr).second) fail("two successful inserts returned the same element"); elems_done.insert(addr); }
                 else if (T::multi) fail("insert into a multi container reported failure");
+                if (arena().is_dead(addr)) fail("insert returned an iterator to a deallocated node");
                 r.vals.push_back(ok);
             } else if (o.name == "find" || o.name == "has") {
-                bool must = completed.count(o.key) || pre_cnt.count(o.key);
-                bool f = (o.name == "find") ? (c.find(o.key) != c.end()) : c.contains(o.key);
+                bool must = completed.count(o.key) || pre_cnt.count(o.key) || thrown_linked.count(o.key);
+                bool f;
+                if (o.name == "find") { OpScope sc(t, i); auto it = c.find(ek); t_active = false; f = it != c.end(); if (f && arena().is_dead(&*it)) fail("find returned a deallocated node"); }
+                else { OpScope sc(t, i); f = c.contains(ek); }
                 bool may = started.count(o.key) || pre_cnt.count(o.key);
                 if (must && !f) fail("find-after-insert: key " + std::to_string(o.key) + " not found although an insert of it had returned");
                 if (f && !may) fail("found key " + std::to_string(o.key) + " that nobody inserts");
                 r.vals.push_back(f);
             } else if (o.name == "cnt") {
-                long lo = pre_cnt.count(o.key) ? pre_cnt[o.key] : 0; if (T::multi) lo += wins.count(o.key) ? wins[o.key] : 0; else if (completed.count(o.key)) lo = 1;
-                long done_before = ins_completed;
-                size_t n = c.count(o.key);
+                long tl = thrown_linked.count(o.key) ? thrown_linked[o.key] : 0;
+                long lo = (pre_cnt.count(o.key) ? pre_cnt[o.key] : 0) + tl; if (T::multi) lo += wins.count(o.key) ? wins[o.key] : 0; else if (completed.count(o.key) || lo) lo = 1;
+                // inserts of OTHER keys that had completed (their node linked) when the call began
+                long done_before = ins_completed + n_thrown_linked - (completed.count(o.key) ? completed[o.key] : 0) - tl;
+                size_t n;
+                { OpScope sc(t, i); n = c.count(ek); }
                 long hi = (pre_cnt.count(o.key) ? pre_cnt[o.key] : 0) + (started.count(o.key) ? started[o.key] : 0); if (!T::multi && hi > 1) hi = 1;
                 // multi containers: count() = std::distance over equal_range(); elements of OTHER keys linked between the two
                 // iterators while it runs are counted too (reported as an observation, bounded by the inserts in flight)
-                long inflight = T::multi ? (ins_started - done_before) : 0;
+                // (caslist_count_bounds) lo <= n <= equivalent elements linked when it returns + elements of other keys linked meanwhile
+                long inflight = T::multi ? (ins_started - (started.count(o.key) ? started[o.key] : 0) - done_before) : 0;
                 if ((long)n < lo) fail("count(" + std::to_string(o.key) + ") = " + std::to_string(n) + " below the number of completed inserts " + std::to_string(lo));
-                if ((long)n > hi + inflight) fail("count(" + std::to_string(o.key) + ") = " + std::to_string(n) + " above the number of started inserts " + std::to_string(hi) + " (+" + std::to_string(inflight) + " in flight)");
+                if ((long)n > hi + inflight) fail("count(" + std::to_string(o.key) + ") = " + std::to_string(n) + " above the number of started inserts of the key " + std::to_string(hi) + " + " + std::to_string(inflight) + " inserts of other keys in flight during the call");
                 else if ((long)n > hi) observations.push_back("count(" + std::to_string(o.key) + ") = " + std::to_string(n) + " although only " + std::to_string(hi) + " such elements were ever inserted (concurrent inserts of other keys inside equal_range)");
                 r.vals.push_back(n);
             } else if (is_size_op(o)) {
+                OpScope sc(t, i);
                 r.vals.push_back(size_op(o));
             } else if (o.name == "trav") {
                 std::set<const void*> before = elems_done;
@@ -162,12 +219,33 @@ static bool run_once(verif::Schedule& sch, int run_idx, int print) {
                 traverse(r.vals, addrs, "concurrent traversal");
                 check_traversal(r.vals, addrs, before, "concurrent traversal");
             }
+            } catch (const Injected& e) {
+                // the operation left by the injected exception (the OpScope has recorded its calls).  What does the container look like?
+                r.vals.assign(1, 2);
+                if (is_ins) {
+                    long ri = own_node_rec(t, i);
+                    if (ri >= 0) {
+                        const void* np = arena().base + arena().recs[ri].off;
+                        if (reachable(np)) {
+                            thrown_linked[o.key]++; n_thrown_linked++; g_postlink++;
+                            value_node_ptr nn = (value_node_ptr)np;
+                            elems_done.insert(nn->storage()); elems_all.insert(nn->storage());
+                            observations.push_back(std::string("insert left by an exception of the ") + F_NAMES[e.what] + " functor AFTER its node was linked: the element stays in the container");
+                        } else if (!arena().recs[ri].dead) {
+                            leak_ok.insert((size_t)ri); g_leaks++;
+                            observations.push_back(std::string("insert left by an exception of the ") + F_NAMES[e.what] + " functor before its node was linked: the node is neither linked nor deallocated (leaked)");
+                        }
+                    }
+                }
+            }
             verif::note("e", i);
             res[t].push_back(r);
             g_ops_done[t]++;
         }
     });
     verif::Result rr = verif::run(bodies, sch, 100000);
+    arena().on_dealloc = nullptr;
+    for (auto& m : arena().errors) fail(m);
     if (g_fair && g_fair->forced) observations.push_back("busy-wait: thread " + std::to_string(g_fair->spinner) + " ran " + std::to_string(g_fair->limit) +
         " consecutive steps without finishing (it spins on another thread's progress without pause/yield); " + std::to_string(g_fair->forced) + " forced switches");
 
@@ -189,6 +267,7 @@ static bool run_once(verif::Schedule& sch, int run_idx, int print) {
         for (node_ptr x = c.my_head.my_next.a.load(); x; x = x->my_next.a.load()) {
             if (++n > walk_bound) { fail("raw list walk does not terminate (cycle)"); break; }
             if (!raw_nodes.insert(x).second) { fail("raw list walk meets a node twice (cycle)"); break; }
+            if (arena().is_dead(x)) { fail(std::string("a deallocated ") + (x->is_dummy() ? "dummy" : "regular") + " node is reachable from the head"); break; }
             if (x->order_key() < prevn->order_key())
                 fail(std::string("list not sorted: ") + (x->is_dummy() ? "dummy" : "regular") + " node with order key " + std::to_string(x->order_key()) +
                      " is linked behind " + (prevn->is_dummy() ? "dummy" : "regular") + " node with order key " + std::to_string(prevn->order_key()));
@@ -199,34 +278,87 @@ static bool run_once(verif::Schedule& sch, int run_idx, int print) {
         auto* tab0 = c.my_segments.my_segment_table.a.load();
         for (size_t sg = 0; sg < 40 && err.empty(); ++sg) {
             auto* segp = tab0[sg].a.load();
-            if (!segp) continue;
+            if (!segp || (uintptr_t)segp < 4096) continue;
             size_t base = c.my_segments.segment_base(sg), cnt = c.my_segments.segment_size(sg);
             for (size_t b = base; b < base + cnt; ++b) {
                 node_ptr d = segp[b].a.load();
                 if (!d) continue;
+                if (arena().is_dead(d)) { fail("bucket " + std::to_string(b) + " points at a deallocated node"); break; }
                 if (!raw_nodes.count(d)) { fail("bucket " + std::to_string(b) + " points at a node that is not in the list"); break; }
                 if (d->order_key() != mon_dummy(b) || (b != 0 && !d->is_dummy())) { fail("bucket " + std::to_string(b) + " entry has the wrong order key"); break; }
             }
         }
     }
+    // ---- canonical names (collected before the container is torn down) ----
+    std::map<const void*, std::string> var; std::map<uint64_t, std::string> val;
+    std::vector<std::string> node_lines; std::string dead_line = "dead";
+    auto collect_names = [&] {
+        var[&c.my_head.my_next] = "n0.next"; val[(uint64_t)&c.my_head] = "n0";
+        node_lines.push_back("node 0 0 - d");
+        long nid = 0;
+        for (auto& rec : arena().recs) if (rec.tag == 1) {
+            ++nid;
+            auto* ln = reinterpret_cast<typename C::list_node_type*>(arena().base + rec.off);
+            var[&ln->my_next] = "n" + std::to_string(nid) + ".next"; val[(uint64_t)ln] = "n" + std::to_string(nid);
+            bool dummy = ln->is_dummy() || rec.bytes != sizeof(value_node_type);
+            node_lines.push_back("node " + std::to_string(nid) + " " + std::to_string(ln->order_key()) + " " +
+                                 (dummy ? std::string("-") : std::to_string(T::key(static_cast<value_node_ptr>(ln)->value()))) + (dummy ? " d" : " r"));
+            if (rec.dead) dead_line += " " + std::to_string(nid);
+        }
+        var[&c.my_bucket_count] = "bc"; var[&c.my_size] = "size"; var[&c.my_segments.my_segment_table] = "segtab";
+        auto* tab = c.my_segments.my_segment_table.a.load();
+        for (size_t s = 0; s < 40; ++s) {
+            var[&tab[s]] = "seg" + std::to_string(s);
+            auto* segp = tab[s].a.load();
+            if (!segp || (uintptr_t)segp < 4096) continue;
+            size_t base = c.my_segments.segment_base(s), n = c.my_segments.segment_size(s);
+            for (size_t b = base; b < base + n; ++b) var[&segp[b]] = "slot" + std::to_string(b);
+        }
+    };
+    auto teardown = [&] {
+    // tear the container down: clear() + destructor free every node exactly once
+    if (err.empty() && !rr.deadlock) {
+        c.clear();
+        for (auto& m : arena().errors) fail("clear(): " + m);
+        for (size_t ri = arena_mark; ri < arena().recs.size() && err.empty(); ++ri) {
+            auto& rec = arena().recs[ri];
+            if (rec.tag == 1 && rec.dead == 0 && !leak_ok.count(ri)) fail("node allocation #" + std::to_string(ri - arena_mark) + " is never deallocated although no exception was thrown in its insert (leak)");
+        }
+        if (err.empty() && (c.begin() != c.end() || c.size() != 0)) fail("container not empty after clear()");
+        if (err.empty()) {
+            cp->~C();
+            for (auto& m : arena().errors) fail("destructor: " + m);
+            for (size_t ri = arena_mark; ri < arena().recs.size() && err.empty(); ++ri)
+                if (arena().recs[ri].dead != 1 && !leak_ok.count(ri)) fail("after the destructor allocation #" + std::to_string(ri - arena_mark) + " has been deallocated " + std::to_string(arena().recs[ri].dead) + " times");
+        }
+    }
+    };
     if (!rr.deadlock) guarded([&] {
         traverse(fin, fin_addrs, "final traversal");
         check_traversal(fin, fin_addrs, elems_all, "final traversal");
         std::map<uint64_t, long> have, want = pre_cnt;
         for (auto k : fin) have[k]++;
         for (auto& kv : wins) if (kv.second) want[kv.first] += kv.second;
-        if (have != want) fail("final contents differ from the union of successful inserts");
-        if (c.size() != fin.size()) fail("size() = " + std::to_string(c.size()) + " but the list holds " + std::to_string(fin.size()));
+        for (auto& kv : thrown_linked) want[kv.first] += kv.second;
+        if (have != want) fail("final contents differ from the union of successful inserts" + std::string(n_thrown_linked ? " and of the inserts that threw after linking their node" : ""));
+        size_t sz = c.size();
+        if (sz > fin.size() || sz + (size_t)n_thrown_linked < fin.size()) fail("size() = " + std::to_string(sz) + " but the list holds " + std::to_string(fin.size()));
         for (auto& kv : started) {
-            long exp = T::multi ? kv.second : (pre_cnt.count(kv.first) ? 0 : 1);
             long w = wins.count(kv.first) ? wins[kv.first] : 0;
-            if (w != exp) fail("key " + std::to_string(kv.first) + ": " + std::to_string(w) + " inserts reported success, expected " + std::to_string(exp));
+            long tl = thrown_linked.count(kv.first) ? thrown_linked[kv.first] : 0;
+            long done = completed.count(kv.first) ? completed[kv.first] : 0;
+            long pre = pre_cnt.count(kv.first) ? pre_cnt[kv.first] : 0;
+            if (T::multi) { if (w != done) fail("key " + std::to_string(kv.first) + ": " + std::to_string(w) + " inserts reported success, expected " + std::to_string(done)); }
+            else {
+                long present = pre + w + tl;
+                if (present > 1 || (done > 0 && present != 1)) fail("key " + std::to_string(kv.first) + ": " + std::to_string(w) + " inserts reported success, expected " + std::to_string(pre + tl ? 0 : 1));
+            }
         }
         // every element reachable from its bucket's entry point, for every table size the table went through
         for (size_t i = 0; i < fin.size() && err.empty(); ++i) {
-            uint64_t h = Hash()(fin[i]);
-            if (c.find(fin[i]) == c.end()) fail("element " + std::to_string(fin[i]) + " not found at quiescence");
-            if (T::multi && c.count(fin[i]) != (size_t)have[fin[i]]) fail("count(" + std::to_string(fin[i]) + ") wrong at quiescence");
+            uint64_t h = Hash::of(fin[i]);
+            if (c.find(Elem(fin[i])) == c.end()) fail("element " + std::to_string(fin[i]) + " not found at quiescence");
+            if (T::multi && c.count(Elem(fin[i])) != (size_t)have[fin[i]]) fail("count(" + std::to_string(fin[i]) + ") wrong at quiescence");
             std::set<size_t> sizes(bc_hist.begin(), bc_hist.end());
             for (size_t sz = 1; sz <= bcfin && sz; sz *= 2) sizes.insert(sz);
             for (size_t sz : sizes) {
@@ -234,7 +366,7 @@ static bool run_once(verif::Schedule& sch, int run_idx, int print) {
                 size_t b = h % sz;
                 auto seg = c.my_segments.segment_index_of(b);
                 auto* segp = c.my_segments.my_segment_table.a.load()[seg].a.load();
-                if (!segp) continue;
+                if (!segp || (uintptr_t)segp < 4096) continue;
                 node_ptr d = segp[b].a.load();
                 if (!d) continue;
                 if (d->order_key() != mon_dummy(b)) { fail("bucket " + std::to_string(b) + " entry has the wrong order key"); break; }
@@ -246,33 +378,16 @@ static bool run_once(verif::Schedule& sch, int run_idx, int print) {
                 if (!found) { fail("element " + std::to_string(fin[i]) + " is not reachable from the entry point of bucket " + std::to_string(b) + " (table size " + std::to_string(sz) + ")"); break; }
             }
         }
-        }, "quiescent lookups/traversal");
+        collect_names();
+        teardown();
+        }, "quiescent lookups/traversal/clear()/destructor");
+    if (node_lines.empty()) collect_names();
+
     if (!observations.empty()) g_obs_runs++;
     bool ok = err.empty() && !rr.deadlock;
-    if (print == 1 || !ok || (print == 2 && focus_cas_failed)) {
-        // ---- canonical names ----
-        std::map<const void*, std::string> var; std::map<uint64_t, std::string> val;
-        std::vector<std::string> node_lines;
-        var[&c.my_head.my_next] = "n0.next"; val[(uint64_t)&c.my_head] = "n0";
-        node_lines.push_back("node 0 0 - d");
-        long nid = 0;
-        for (auto& rec : arena().recs) if (rec.tag == 1) {
-            ++nid;
-            auto* ln = reinterpret_cast<typename C::list_node_type*>(arena().base + rec.off);
-            var[&ln->my_next] = "n" + std::to_string(nid) + ".next"; val[(uint64_t)ln] = "n" + std::to_string(nid);
-            bool dummy = ln->is_dummy();
-            node_lines.push_back("node " + std::to_string(nid) + " " + std::to_string(ln->order_key()) + " " +
-                                 (dummy ? std::string("-") : std::to_string(T::key(static_cast<value_node_ptr>(ln)->value()))) + (dummy ? " d" : " r"));
-        }
-        var[&c.my_bucket_count] = "bc"; var[&c.my_size] = "size"; var[&c.my_segments.my_segment_table] = "segtab";
-        auto* tab = c.my_segments.my_segment_table.a.load();
-        for (size_t s = 0; s < 40; ++s) {
-            var[&tab[s]] = "seg" + std::to_string(s);
-            auto* segp = tab[s].a.load();
-            if (!segp) continue;
-            size_t base = c.my_segments.segment_base(s), n = c.my_segments.segment_size(s);
-            for (size_t b = base; b < base + n; ++b) var[&segp[b]] = "slot" + std::to_string(b);
-        }
+    g_last_fired = fc.fired;
+    if (fc.fired && fc.what >= 0) g_fired_by[fc.what]++;
+    if (print == 1 || !ok || (print == 2 && focus_cas_failed) || (print == 3 && fc.fired)) {
         printf("run %d\n", run_idx);
         for (auto& l : node_lines) printf("%s\n", l.c_str());
         auto vname = [&](const std::string& v, uint64_t x) -> std::string {
@@ -281,7 +396,11 @@ static bool run_once(verif::Schedule& sch, int run_idx, int print) {
             return std::to_string(x);
         };
         for (auto& e : rr.log) {
-            if (e.kind == verif::K_NOTE) { printf("o %d %s %llu\n", e.tid, e.tag, (unsigned long long)e.a); continue; }
+            if (e.kind == verif::K_NOTE) {
+                if (e.tag[0] == 'x') printf("x %d %s %llu\n", e.tid, F_NAMES[e.a < F_N ? e.a : 0], (unsigned long long)e.b);
+                else printf("o %d %s %llu\n", e.tid, e.tag, (unsigned long long)e.a);
+                continue;
+            }
             if (e.kind > verif::K_FXOR) continue;
             auto it = var.find(e.addr);
             std::string v = it == var.end() ? "anon" : it->second;
@@ -292,6 +411,13 @@ static bool run_once(verif::Schedule& sch, int run_idx, int print) {
             for (auto v : res[t][i].vals) printf(" %llu", (unsigned long long)v);
             printf("\n");
         }
+        for (size_t t = 0; t < T_n; ++t) for (size_t i = 0; i < fc.calls[t].size(); ++i) {
+            bool any = false; for (int f = 0; f < F_N; ++f) if (fc.calls[t][i].n[f]) any = true;
+            if (!any) continue;
+            printf("calls %zu %zu", t, i); for (int f = 0; f < F_N; ++f) if (fc.calls[t][i].n[f]) printf(" %s=%ld", F_NAMES[f], fc.calls[t][i].n[f]); printf("\n");
+        }
+        if (fc.tid >= 0) printf("fault %d %d %s %ld %d\n", fc.tid, fc.op, F_NAMES[fc.what], fc.k, fc.fired ? 1 : 0);
+        printf("%s\n", dead_line.c_str());
         printf("fin"); for (auto k : fin) printf(" %llu", (unsigned long long)k); printf("\n");
         printf("bcfin %zu\n", bcfin);
         for (auto& ob : observations) printf("obs %s\n", ob.c_str());
@@ -303,13 +429,58 @@ static bool run_once(verif::Schedule& sch, int run_idx, int print) {
     return ok;
 }
 
+struct FaultPos { int tid, op, what; long k; };
+// every (thread, operation, functor, k) with k <= the number of calls the operation made in the run that has just finished
+static std::vector<FaultPos> fault_positions(int only_tid, long cap) {
+    std::vector<FaultPos> all;
+    FaultCtl& fc = fctl();
+    for (size_t t = 0; t < fc.calls.size(); ++t) {
+        if (only_tid >= 0 && (int)t != only_tid) continue;
+        for (size_t i = 0; i < fc.calls[t].size(); ++i) for (int f = 0; f < F_N; ++f)
+            for (long k = 1; k <= fc.calls[t][i].n[f]; ++k) all.push_back({(int)t, (int)i, f, k});
+    }
+    if (cap > 0 && (long)all.size() > cap) {      // evenly spaced sample that keeps the first and the last position
+        std::vector<FaultPos> s;
+        for (long j = 0; j < cap; ++j) s.push_back(all[(size_t)((double)j * (all.size() - 1) / (cap - 1) + 0.5)]);
+        return s;
+    }
+    return all;
+}
+
+// which of the n fault runs of one base schedule are printed (for the replay on the Lean model): `printcap` of them, evenly
+// spread, the offset rotating with the base schedule so that all functor kinds and call positions get printed over time
+static bool print_pick(size_t fi, size_t n, long printcap, size_t rot) {
+    if (printcap <= 0 || n == 0) return false;
+    if ((size_t)printcap >= n) return true;
+    for (long j = 0; j < printcap; ++j) if ((j * n / printcap + rot) % n == fi) return true;
+    return false;
+}
+
 template <class C> static int drive(int argc, char** argv) {
     std::string mode = argv[1];
     long maxruns = argc > 3 ? atol(argv[3]) : 1;
-    long runs = 0, bad = 0;
+    long cap = argc > 4 ? atol(argv[4]) : 0, printcap = argc > 5 ? atol(argv[5]) : 0;
+    long runs = 0, bad = 0, fired = 0;
+    FaultCtl& fc = fctl();
+    if (g_sc.f_tid >= 0) fc.arm(g_sc.f_tid, g_sc.f_op, g_sc.f_what, g_sc.f_k);
     if (mode == "rand") {
         unsigned long long seed = strtoull(argv[2], 0, 10);
         for (long i = 0; i < maxruns; ++i) { verif::RandomSchedule s(seed * 7919 + i, 32 + (int)(i % 4) * 56); if (!run_once<C>(s, (int)i, 1)) bad++; runs++; }
+    } else if (mode == "frand") {
+        unsigned long long seed = strtoull(argv[2], 0, 10);
+        for (long i = 0; i < maxruns && !bad; ++i) {
+            fc.disarm();
+            { verif::RandomSchedule s(seed * 7919 + i, 32 + (int)(i % 4) * 56); if (!run_once<C>(s, (int)runs, 1)) { bad++; break; } runs++; }
+            auto fps = fault_positions(-1, cap);
+            for (size_t fi = 0; fi < fps.size(); ++fi) {
+                auto& fp = fps[fi];
+                fc.arm(fp.tid, fp.op, fp.what, fp.k);
+                verif::RandomSchedule s(seed * 7919 + i, 32 + (int)(i % 4) * 56);
+                bool ok = run_once<C>(s, (int)runs, print_pick(fi, fps.size(), printcap, (size_t)(i + seed)) ? 3 : 0);
+                runs++; if (g_last_fired) fired++;
+                if (!ok) { bad++; break; }
+            }
+        }
     } else if (mode == "dfs") {
         verif::DfsSchedule d(atoi(argv[2]));
         FairSchedule f(d);
@@ -318,7 +489,8 @@ template <class C> static int drive(int argc, char** argv) {
         GuideSchedule g; g.segs = GuideSchedule::parse(argv[2]); g.ops_done = &g_ops_done;
         FairSchedule f(g); g_fair = &f;
         if (!run_once<C>(f, 0, 1)) bad++; runs++;
-    } else if (mode == "sweep") {
+    } else if (mode == "sweep" || mode == "fsweep") {
+        bool faults = mode == "fsweep";
         int H = atoi(argv[2]); g_focus = H;
         std::vector<int> others; for (size_t t = 0; t < g_sc.progs.size(); ++t) if ((int)t != H) others.push_back((int)t);
         // every ordered selection of 1..n of the other threads
@@ -332,14 +504,31 @@ template <class C> static int drive(int argc, char** argv) {
         for (long j = 1; j < 2000 && !stop && !bad; ++j) {
             for (auto& ord : orders) {
                 if (runs >= maxruns) { stop = true; break; }
-                GuideSchedule g; g.ops_done = &g_ops_done;
-                g.segs.push_back({H, '*', j});
-                for (int t : ord) g.segs.push_back({t, '!', 0});
-                g.segs.push_back({H, '!', 0});
-                FairSchedule f(g); g_fair = &f;
-                if (!run_once<C>(f, (int)runs, 2)) { bad++; break; }
-                runs++;
-                if (g.first_short) stop = true;       // H finished within j picks: every hold point has been visited
+                auto guided = [&](int pr) {
+                    GuideSchedule g; g.ops_done = &g_ops_done;
+                    g.segs.push_back({H, '*', j});
+                    for (int t : ord) g.segs.push_back({t, '!', 0});
+                    g.segs.push_back({H, '!', 0});
+                    FairSchedule f(g); g_fair = &f;
+                    bool ok = run_once<C>(f, (int)runs, pr);
+                    runs++;
+                    if (g.first_short) stop = true;       // H finished within j picks: every hold point has been visited
+                    return ok;
+                };
+                fc.disarm();
+                if (!guided(!faults && cap == 1 ? 1 : 2)) { bad++; break; }      // `sweep H maxruns 1`: print every run
+                if (!faults) continue;
+                bool stop_clean = stop;
+                auto fps = fault_positions(H, cap);
+                for (size_t fi = 0; fi < fps.size(); ++fi) {
+                    auto& fp = fps[fi];
+                    fc.arm(fp.tid, fp.op, fp.what, fp.k);
+                    bool ok = guided(print_pick(fi, fps.size(), printcap, (size_t)(j * 7 + runs)) ? 3 : 0);
+                    if (g_last_fired) fired++;
+                    if (!ok) { bad++; break; }
+                }
+                stop = stop_clean;
+                if (bad) break;
             }
         }
     } else if (mode == "replay") {
@@ -347,7 +536,9 @@ template <class C> static int drive(int argc, char** argv) {
         FairSchedule f(s); g_fair = &f;
         if (!run_once<C>(f, 0, 1)) bad++; runs++;
     }
-    printf("summary runs=%ld bad=%ld obs=%ld\n", runs, bad, g_obs_runs);
+    printf("summary runs=%ld bad=%ld obs=%ld fired=%ld postlink=%ld leaks=%ld byf", runs, bad, g_obs_runs, fired, g_postlink, g_leaks);
+    for (int f = 0; f < F_N; ++f) printf(" %s=%ld", F_NAMES[f], g_fired_by[f]);
+    printf("\n");
     return bad ? 1 : 0;
 }
 
